@@ -186,8 +186,12 @@ func drawSubPath(t *rapid.T) Path {
 	}
 	n := rapid.IntRange(0, 2).Draw(t, "subn")
 	for i := 0; i < n; i++ {
-		kind := rapid.SampledFrom([]string{"child", "child", "child", "nth", "wild", "slice"}).Draw(t, "subk")
-		p = append(p, drawFrag(t, PathOpts{}, kind))
+		kind := rapid.SampledFrom([]string{"child", "child", "child", "nth", "wild", "slice", "union"}).Draw(t, "subk")
+		f := drawFrag(t, PathOpts{}, kind)
+		if f.K == "union" && len(f.U) == 1 {
+			f.U = append(f.U, f.U[0]) // a union of one member is printed like a child or index step
+		}
+		p = append(p, f)
 	}
 	return p
 }
